@@ -42,6 +42,9 @@ DOM = "ghedesigner.domains"
 SH = SHM = "ghedesigner.shape"
 
 
+_FLIP_OP = {ast.Lt: ast.Gt, ast.LtE: ast.GtE, ast.Gt: ast.Lt, ast.GtE: ast.LtE, ast.Eq: ast.Eq, ast.NotEq: ast.NotEq}
+
+
 def _bool_eval(node: ast.expr, val: dict) -> bool:
     if type(val).__name__ == "_Env":
         return bool(_code_eval(node, val))
@@ -50,6 +53,10 @@ def _bool_eval(node: ast.expr, val: dict) -> bool:
         return all(vs) if isinstance(node.op, ast.And) else any(vs)
     if isinstance(node, ast.UnaryOp) and isinstance(node.op, ast.Not):
         return not _bool_eval(node.operand, val)
+    if isinstance(node, ast.Compare) and len(node.ops) == 1 and isinstance(node.left, ast.Constant) and isinstance(node.comparators[0], ast.Call) and isinstance(node.comparators[0].func, ast.Attribute) \
+            and node.comparators[0].func.attr == "count" and type(node.ops[0]) in _FLIP_OP:
+        # n <op> results.count(code): the same comparison the other way round
+        node = ast.Compare(left=node.comparators[0], ops=[_FLIP_OP[type(node.ops[0])]()], comparators=[node.left])
     if isinstance(node, ast.Compare) and len(node.ops) == 1 and isinstance(node.left, ast.Call) and isinstance(node.left.func, ast.Attribute) and node.left.func.attr == "count" \
             and len(node.left.args) == 1 and isinstance(node.left.args[0], ast.Name) and isinstance(node.comparators[0], ast.Constant) and "__counts__" in val:
         # results.count(code) <op> n : the valuation carries how many boundaries gave each code (0, 1 or 2 = several)
@@ -892,6 +899,15 @@ def _check_order(prog: Program, res: Result):
 
 
 VARIANTS = [
+    Variant("edge tolerance of both cuts tied to the minimum spacing (seeded C04_l)", "break",
+            [(DOM, "                coordinates, property_boundary, remove_inside=False, keep_contour=keep_contour[0]\n", "                coordinates, property_boundary, remove_inside=False, keep_contour=keep_contour[0], on_edge_tolerance=b_min / 500\n"),
+             (DOM, "                    new_coordinates, no_go_boundaries, remove_inside=True, keep_contour=keep_contour[1]\n", "                    new_coordinates, no_go_boundaries, remove_inside=True, keep_contour=keep_contour[1], on_edge_tolerance=b_min / 500\n")], "R04.2"),
+    Variant("edge tolerance of both cuts spelled out as the documented 0.01", "benign",
+            [(DOM, "                coordinates, property_boundary, remove_inside=False, keep_contour=keep_contour[0]\n", "                coordinates, property_boundary, remove_inside=False, keep_contour=keep_contour[0], on_edge_tolerance=0.01\n")]),
+    Variant("a borehole must lie in exactly one property outline (seeded C04_k)", "break",
+            [(FR, "        elif (inside in boundary_results) or (on_edge in boundary_results and keep_contour):", "        elif (boundary_results.count(inside) == 1) or (on_edge in boundary_results and keep_contour):")], "R04.1"),
+    Variant("membership written as a count test", "benign",
+            [(FR, "        elif (inside in boundary_results) or (on_edge in boundary_results and keep_contour):", "        elif (boundary_results.count(inside) >= 1) or (on_edge in boundary_results and keep_contour):")]),
     Variant("no-go mode decided by an early-exit scan that breaks on 'inside' only: an on-edge answer is overwritten (seeded C04_j)", "break",
             [(FR, "        boundary_results = []\n", "        if remove_inside:\n            result = -1\n            for boundary in boundaries:\n                result = point_polygon_check(boundary, coordinate, on_edge_tolerance=on_edge_tolerance)\n                if result == inside:\n                    break\n            if result != inside and not (result == on_edge and not keep_contour):\n                new_coordinates.append(coordinate)\n            continue\n        boundary_results = []\n")], "R04.1"),
     Variant("no-go mode decided by an early-exit scan that breaks on every deciding answer", "benign",
